@@ -92,7 +92,8 @@ type world struct {
 	ctl       *controller // the task the loop is parked in (nil: not parked)
 	inq       map[int]int // queue entries per timer already reported by a wait
 	inStop    bool
-	cut       bool // the last release was cut short (svc.go: runLoop)
+	shared    map[int64][]interface{} // argument lists shared by the timers of one (odd) argument value
+	cut       bool                    // the last release was cut short (svc.go: runLoop)
 	closing   bool
 }
 
@@ -125,10 +126,25 @@ func (w *world) createDur(d int64, u time.Duration, rep bool, arg int64, prog []
 	w.ts = append(w.ts, ti)
 	cb := func(args ...interface{}) { w.callback(k, args) }
 	ti.armAt = time.Now()
+	// Timers whose argument value is odd are created from ONE list per value, spread into the variadic
+	// parameter (Go passes that slice without copying): the arguments of a timer must survive whatever
+	// happens to its siblings - cancel, firing, removal (seed C14-11).  Even values: a fresh list each.
+	lst := []interface{}{arg, argMark, int64(k)}
+	if arg%2 != 0 {
+		if w.shared == nil {
+			w.shared = map[int64][]interface{}{}
+		}
+		if w.shared[arg] == nil {
+			w.shared[arg] = []interface{}{arg, argMark, int64(-1)}
+		} else {
+			w.tag("args-list-shared")
+		}
+		lst = w.shared[arg]
+	}
 	if rep {
-		ti.id = w.mgr.AddTimer(ti.dur, cb, arg, argMark, int64(k))
+		ti.id = w.mgr.AddTimer(ti.dur, cb, lst...)
 	} else {
-		ti.id = w.mgr.After(ti.dur, cb, arg, argMark, int64(k))
+		ti.id = w.mgr.After(ti.dur, cb, lst...)
 	}
 	if u == 1 {
 		switch {
@@ -207,7 +223,11 @@ func (w *world) callback(k int, args []interface{}) {
 		a0, o0 := args[0].(int64)
 		a1, o1 := args[1].(string)
 		a2, o2 := args[2].(int64)
-		ok = o0 && o1 && o2 && a0 == ti.arg && a1 == argMark && a2 == int64(k)
+		want := int64(k)
+		if ti.arg%2 != 0 {
+			want = -1 // created from the shared list of its argument value
+		}
+		ok = o0 && o1 && o2 && a0 == ti.arg && a1 == argMark && a2 == want
 	}
 	rec := cbRec{
 		k: int64(k), n: ti.count, argsOK: ok,
